@@ -12,6 +12,8 @@ CONSTANTS
   HostSets = {{"h1", "h2"}}
   Attrs = {"a1", "a2"}
   LocLists = {"L3"}
+  CModes = {"inline"}
+  RModes = {"inline"}
   Defects = {"PrimaryForgetsHosts"}
 SPECIFICATION Spec
 INVARIANTS Coherent LastUpdateWins RemovedGone EndpointsUnion ErrorsChangeNothing FrameCondition 
